@@ -117,7 +117,7 @@ func TestC02Timestamp(t *testing.T) { h.Run(t, "C02", "timestamp", genTS, judgeT
 // --------------------------------------------------------- records and files
 
 type flatCont struct {
-	RG                     int64
+	RG                      int64
 	Tot, Up, Down, SSU, LSN int64
 }
 
